@@ -104,7 +104,13 @@ Section Mon.
   Definition lfi (d : dg) : Prop := leafp_i (h_tab h) d = true.
 
   Lemma Hsorted : tab_sorted (h_tab h) = true.
-  Proof. unfold wf_hdr in Hwf. apply andb_prop in Hwf. destruct Hwf as [Hw _]. apply andb_prop in Hw. tauto. Qed.
+  Proof.
+    unfold wf_hdr in Hwf. apply andb_prop in Hwf. destruct Hwf as [Hw _].
+    apply andb_prop in Hw. destruct Hw as [Hw _]. apply andb_prop in Hw. tauto.
+  Qed.
+
+  Lemma Hltab : ltab_ok (h_tab h) (h_ltab h) = true.
+  Proof. unfold wf_hdr in Hwf. apply andb_prop in Hwf. tauto. Qed.
 
   Lemma Hh_inj : forall a b c d, Hh h a b = Hh h c d -> a = c /\ b = d.
   Proof. apply Htab_inj. exact Hsorted. Qed.
@@ -117,12 +123,14 @@ Section Mon.
   Lemma strees_wf : forall t, In t (h_strees h) -> Forall lfs (leaves t).
   Proof.
     intros t Hin. unfold wf_hdr in Hwf. apply andb_prop in Hwf. destruct Hwf as [Hw _].
+    apply andb_prop in Hw. destruct Hw as [Hw _].
     apply andb_prop in Hw. destruct Hw as [_ Hw]. rewrite forallb_forall in Hw.
     specialize (Hw _ Hin). rewrite forallb_forall in Hw. apply Forall_forall. exact Hw.
   Qed.
   Lemma itrees_wf : forall t, In t (h_itrees h) -> Forall lfi (leaves t).
   Proof.
-    intros t Hin. unfold wf_hdr in Hwf. apply andb_prop in Hwf. destruct Hwf as [_ Hw].
+    intros t Hin. unfold wf_hdr in Hwf. apply andb_prop in Hwf. destruct Hwf as [Hw _].
+    apply andb_prop in Hw. destruct Hw as [_ Hw].
     rewrite forallb_forall in Hw. specialize (Hw _ Hin). rewrite forallb_forall in Hw.
     apply Forall_forall. exact Hw.
   Qed.
@@ -288,21 +296,25 @@ Section Mon.
   Qed.
 
   (* one step of the model: the monitor's expectation is exactly the model's next observation *)
-  Lemma mon_expect_model : forall univ addrs (s : state dg) c,
+  Lemma mon_expect_model : forall univ addrs (s0 s : state dg) c,
     self s = h_self h ->
-    wf_call h (squads h) (iquads h) (observe univ addrs s) (root s) c = true ->
-    mon_expect h (squads h) (iquads h) (observe univ addrs s) c (snd (mstep h s c))
+    wf_call h (squads h) (iquads h) (observe univ addrs s0) (root s) c = true ->
+    mon_expect h (squads h) (iquads h) (observe univ addrs s0) (observe univ addrs s) c (snd (mstep h s c))
     = Some (observe univ addrs (fst (mstep h s c))).
   Proof.
-    intros univ addrs s c Hself Hwc. set (po := observe univ addrs s) in *.
+    intros univ addrs s0 s c Hself Hwc0.
+    assert (Hwc : wf_call h (squads h) (iquads h) (observe univ addrs s) (root s) c = true).
+    { rewrite <- Hwc0. unfold wf_call, observe, o_cl, o_bal. cbn [fst snd]. rewrite !map_fst_pair. reflexivity. }
+    set (po := observe univ addrs s) in *.
     assert (Hkeys_cl : map fst (o_cl po) = univ) by (unfold po, observe, o_cl; cbn [fst snd]; apply map_fst_pair).
     assert (Hkeys_bal : map fst (o_bal po) = addrs) by (unfold po, observe, o_bal; cbn [fst snd]; apply map_fst_pair).
     assert (Hroot : o_root po = root s) by reflexivity.
+    rewrite <- Hroot in Hwc0.
     unfold mstep. destruct c as [p r v|p r v i|r|i|i a m p|i a m p|i a m p|n];
-      cbn [wf_call] in Hwc; cbn [step fst snd mon_expect].
-    - (* Verify *) rewrite (verify_is_honest_s _ _ _ Hwc), out_eqb_refl. reflexivity.
+      cbn [wf_call] in Hwc; unfold mon_expect; rewrite Hwc0; cbn [negb step fst snd].
+    - (* Verify *) unfold verify_out_ok. rewrite (verify_is_honest_s _ _ _ Hwc), out_eqb_refl. reflexivity.
     - (* VerifyIdx *) apply andb_prop in Hwc. destruct Hwc as [Hr Hi]. apply Z.leb_le in Hi.
-      rewrite (idx_outcome _ _ _ _ Hr Hi), out_eqb_refl. reflexivity.
+      unfold idx_out_ok. rewrite (idx_outcome _ _ _ _ Hr Hi), out_eqb_refl. reflexivity.
     - (* SetRoot *) cbn [out_eqb]. reflexivity.
     - (* SetClaimed *) cbn [out_eqb]. f_equal. symmetry. apply observe_set_claimed.
     - (* ClaimS *)
@@ -319,7 +331,8 @@ Section Mon.
       + cbn [fst snd unit_expect out_eqb]. reflexivity.
     - (* ClaimI *)
       rewrite Hkeys_cl in Hwc. apply andb_prop in Hwc. destruct Hwc as [Hi Hcur].
-      rewrite Hroot. unfold po at 1. rewrite (flag_observe _ _ _ _ Hi).
+      assert (Hflag : alist_get i (o_cl po) = Some (is_claimed s i)) by (apply flag_observe; exact Hi).
+      rewrite Hroot, Hflag.
       unfold unit_call, claim_indexed.
       destruct (root s) as [r|] eqn:Er; cbn [of_option bind].
       + destruct (is_claimed s i) eqn:Ec.
@@ -328,8 +341,8 @@ Section Mon.
           destruct (verify_with_index dg_eqb (Hh h) p r (Lh h i a m) (Z.of_N i)) as [[|]|];
             cbn [bind fst snd unit_expect out_eqb].
           -- f_equal. rewrite observe_set_claimed, Er. reflexivity.
-          -- reflexivity.
-          -- reflexivity.
+          -- destruct (honest_i (iquads h) r (Lh h i a m) p (Z.of_N i)); reflexivity.
+          -- destruct (honest_i (iquads h) r (Lh h i a m) p (Z.of_N i)); reflexivity.
       + cbn [fst snd unit_expect out_eqb]. reflexivity.
     - (* Airdrop *)
       rewrite Hkeys_cl, Hkeys_bal in Hwc. apply andb_prop in Hwc. destruct Hwc as [Hwc Hself_in].
@@ -362,36 +375,53 @@ Section Mon.
   Lemma step_root_obs univ addrs (s : state dg) : o_root (observe univ addrs s) = root s.
   Proof. reflexivity. Qed.
 
+  Lemma obs_sub_reads univ addrs reads (s : state dg) :
+    forallb (fun i => mem_n i univ) reads = true ->
+    obs_sub (observe reads addrs s) (observe univ addrs s) = true.
+  Proof.
+    intros Hr. unfold obs_sub. rewrite bal_eqb_refl.
+    assert (Hc : cl_sub (o_cl (observe reads addrs s)) (o_cl (observe univ addrs s)) = true).
+    { unfold cl_sub, observe, o_cl. cbn [fst snd]. apply forallb_forall. intros [j b] Hin.
+      apply in_map_iff in Hin. destruct Hin as (j' & E & Hin). injection E as Ej Eb. subst j b. cbn [fst snd].
+      rewrite forallb_forall in Hr.
+      rewrite (alist_get_map (is_claimed s) univ j' (Hr _ Hin)). apply eqb_reflx. }
+    rewrite Hc. unfold observe, o_root. cbn [fst].
+    destruct (root s); cbn [oroot_eqb]; [rewrite dg_eqb_refl|]; reflexivity.
+  Qed.
+
   (* ---------- the whole run ---------- *)
   Lemma model_run_accepted : forall cs univ addrs (s0 s : state dg) k,
     self s = h_self h ->
     wf_run h (squads h) (iquads h) (observe univ addrs s0) s cs = true ->
-    diff_from h (squads h) (iquads h) (observe univ addrs s0) s (model_items h s (observe univ addrs s) cs) k = 0%N /\
-    mon_from h (squads h) (iquads h) (observe univ addrs s) (model_items h s (observe univ addrs s) cs) k = 0%N.
+    diff_from h (squads h) (iquads h) (observe univ addrs s0) s (model_items h (observe univ addrs s0) s cs) k = 0%N /\
+    mon_from h (squads h) (iquads h) (observe univ addrs s0) (observe univ addrs s)
+             (model_items h (observe univ addrs s0) s cs) k = 0%N.
   Proof.
-    induction cs as [|c cs IH]; intros univ addrs s0 s k Hself Hw; [split; reflexivity|].
+    induction cs as [|[c reads] cs IH]; intros univ addrs s0 s k Hself Hw; [split; reflexivity|].
     cbn [wf_run model_items] in *.
-    assert (Hu : forall x, wf_call h (squads h) (iquads h) (observe univ addrs s0) x c
-                         = wf_call h (squads h) (iquads h) (observe univ addrs s) x c).
-    { intros x. unfold wf_call, observe, o_cl, o_bal. cbn [fst snd]. rewrite !map_fst_pair. reflexivity. }
-    pose proof (mon_expect_model univ addrs s c Hself) as Hm.
+    assert (Hb : map fst (o_bal (observe univ addrs s0)) = addrs)
+      by (unfold observe, o_bal; cbn [fst snd]; apply map_fst_pair).
+    assert (Hc : map fst (o_cl (observe univ addrs s0)) = univ)
+      by (unfold observe, o_cl; cbn [fst snd]; apply map_fst_pair).
+    rewrite Hb. rewrite Hc in Hw.
+    pose proof (mon_expect_model univ addrs s0 s c Hself) as Hm.
     pose proof (step_self s c) as Hs'.
     destruct (mstep h s c) as [s' out] eqn:Es. cbn [fst snd] in *.
-    apply andb_prop in Hw. destruct Hw as [Hw Hrest]. apply andb_prop in Hw. destruct Hw as [Hwc Hhits].
-    rewrite observe_like_observe in *.
+    apply andb_prop in Hw. destruct Hw as [Hw Hrest]. apply andb_prop in Hw. destruct Hw as [Hw Hreads].
+    apply andb_prop in Hw. destruct Hw as [Hwc Hhits].
     cbn [diff_from mon_from]. rewrite Es, Hwc, Hhits, out_eqb_refl.
     rewrite observe_like_observe, obs_eqb_refl. cbn [andb].
-    rewrite Hu in Hwc. rewrite (Hm Hwc), obs_sub_observe.
+    rewrite (Hm Hwc), (obs_sub_reads _ _ _ _ Hreads).
     apply IH; [congruence|exact Hrest].
   Qed.
 End Mon.
 
-Theorem check_accepts_model : forall (h : hdr) (o0 : obs) (cs : list (call dg)),
+Theorem check_accepts_model : forall (h : hdr) (o0 : obs) (cs : list (call dg * list N)),
   wf_input h o0 cs = true -> check (model_trace h o0 cs) = (0%N, 0%N, 0%N).
 Proof.
   intros h o0 cs Hw. unfold wf_input in Hw. apply andb_prop in Hw. destruct Hw as [Hw Hrun].
   apply andb_prop in Hw. destruct Hw as [Hh Ho].
-  unfold check, model_trace. rewrite Hh.
+  unfold check, model_trace. rewrite Hh, Ho. cbn [andb].
   set (s0 := init_of h o0) in *.
   assert (Hself : self s0 = h_self h) by reflexivity.
   assert (Hobs : o0 = observe (map fst (o_cl o0)) (map fst (o_bal o0)) s0)
